@@ -104,7 +104,7 @@ theorem C09Lex_colon_glue (cfg : LexCfg) (t : CTok) :
       (t = .spill ∧ errSecond cfg.errors ':' = true) := by
   cases t <;> simp [badNext]
   case cmp k => cases k <;> simp
-  case range => decide
+  case range sh l r => split <;> decide
 
 /-! ### the printer's token lists are glue-free, except at the known glue shapes -/
 
@@ -198,11 +198,17 @@ theorem C09Lex_compose (cfg : LexCfg) (hcfg : CfgOK cfg) (I : Interp) (hI : Inte
 def exA1 : PRef := { column := 1, row := 1, absCol := false, absRow := false }
 def exB2 : PRef := { column := 2, row := 2, absCol := true, absRow := true }
 
-/-- `SUM(A1,"a""b")<=1.5e-5+'My Sheet'!$B$2%&TRUE#` … a token list of every class -/
+def exColL : PRef := { column := 3, row := 1, absCol := false, absRow := true }
+def exColR : PRef := { column := 5, row := 1048576, absCol := true, absRow := true }
+def exRowL : PRef := { column := 1, row := 4, absCol := true, absRow := false }
+def exRowR : PRef := { column := 16384, row := 9, absCol := true, absRow := true }
+
+/-- `SUM(A1,"a""b")<=1.5e-5+'My Sheet'!$B$2%&TRUE#…,C:$E,'My Sheet'!4:$9,A1:$B$2`: every token class -/
 def exToks : List CTok :=
   [.ident "SUM".toList, .lp, .ref none exA1, .comma, .str "a\"\"b".toList, .rp, .cmp .le,
    .num "1.5e-5".toList, .add, .ref (some "My Sheet".toList) exB2, .pct, .amp, .bool true, .spill,
-   .mul, .err 4, .cmp .lt, .ref none exB2, .pow, .ident "x_1".toList, .colon, .ref (some "S2".toList) exA1]
+   .mul, .err 4, .cmp .lt, .ref none exB2, .pow, .ident "x_1".toList, .colon, .ref (some "S2".toList) exA1, .comma,
+   .range none exColL exColR, .comma, .range (some "My Sheet".toList) exRowL exRowR, .comma, .range none exA1 exB2]
 
 example : (exToks.all (tokOK cfgEn) && glueFree cfgEn exToks) = true := by decide +kernel
 
